@@ -11,6 +11,7 @@
 #include <sstream>
 #include <iostream>
 #include <algorithm>
+#include <new>
 
 #define private public
 #define protected public
@@ -70,9 +71,9 @@ template<class T> static void show_state(std::ostringstream & o, const Queue<T> 
    o << "/" << q._queueSize << "/[";
    for (uint32 i=0; i<q.GetNumItems(); i++) {if (i) o << ","; o << val(q[i]);}
    o << "]/{";
-   if (owning) for (uint32 i=0; i<q._queueSize; i++) {if (i) o << ","; o << val(q._queue[i]);}
+   for (uint32 i=0; i<q._queueSize; i++) {if (i) o << ","; o << val(q._queue[i]);}
    o << "}<";
-   if ((owning)&&(!small)) for (uint32 i=0; i<ARRAYITEMS(q._smallQueue); i++) {if (i) o << ","; o << val(q._smallQueue[i]);}
+   if (!small) for (uint32 i=0; i<ARRAYITEMS(q._smallQueue); i++) {if (i) o << ","; o << val(q._smallQueue[i]);}
    o << ">";
 }
 
@@ -259,7 +260,14 @@ template<class T> static bool run_case(int k, const std::string & body, bool own
    std::ostringstream o;
    std::ostringstream orc;
    {
-      Queue<T> qa, qb;
+      // The Queues live in buffers pre-filled with 0xbe, the byte ASan fills fresh heap memory with, so that the
+      // never-written slots of trivial items are deterministic too and ALL raw slots can be compared with the model.
+      alignas(Queue<T>) static char bufa[sizeof(Queue<T>)];
+      alignas(Queue<T>) static char bufb[sizeof(Queue<T>)];
+      memset(bufa, 0xbe, sizeof(bufa)); memset(bufb, 0xbe, sizeof(bufb));
+      struct Holder {Queue<T> * _q; Holder(char * b) : _q(new (b) Queue<T>()) {} ~Holder() {_q->~Queue<T>();}};
+      Holder ha(bufa), hb(bufb);
+      Queue<T> & qa = *ha._q; Queue<T> & qb = *hb._q;
       Ideal ia, ib;             // the harness's own ideal sequences: the property oracle
       std::vector<std::string> ops = split(body, ';');
       for (size_t n=0; n<ops.size(); n++)
